@@ -104,6 +104,7 @@ type Run struct {
 	Failures []Failure
 	Extra    map[string]interface{}
 	Replay   string
+	Mode     string
 }
 
 // Parse the common flags: -seed -tier -ops -out -meta [-replay file]
@@ -114,6 +115,7 @@ func Start() *Run {
 	out := flag.String("out", "impl.txt", "")
 	meta := flag.String("meta", "meta.json", "")
 	replay := flag.String("replay", "", "ops file to re-execute on the implementation instead of generating")
+	mode := flag.String("mode", "", "engine-specific generator mode")
 	flag.Parse()
 	fo, err := os.Create(*ops)
 	if err != nil {
@@ -126,7 +128,7 @@ func Start() *Run {
 	return &Run{Seed: *seed, Tier: *tier, R: NewRng(*seed), fo: fo, fu: fu,
 		ops: bufio.NewWriterSize(fo, 1<<20), out: bufio.NewWriterSize(fu, 1<<20), metaPath: *meta,
 		Dist: map[string]int{}, distinct: map[string]struct{}{}, Extra: map[string]interface{}{},
-		Replay: *replay}
+		Replay: *replay, Mode: *mode}
 }
 
 func (r *Run) Thorough() bool { return r.Tier == "thorough" }
